@@ -256,7 +256,7 @@ def main(argv=None):
                 known_hits.append((k, rf))
             else:
                 violations.append((out, rf))
-        if not out['error'] and c.cover and out['covers_sat'] == 0:
+        if not out['error'] and c.cover and out['covers_sat'] == 0 and not out['refuted']:
             checker_errors.append('%s: vacuity guard - no feasible normal exit in finitised mode (covers=%d)' % (out['cname'], out['covers']))
         if not out['error'] and not out['results'] and not getattr(c, 'allow_no_obligations', False):
             checker_errors.append('%s: zero obligations generated' % out['cname'])
